@@ -1647,10 +1647,31 @@ package mcp
 //@   ensures @known-method-accepted-or-invalid inDom(infos, req.Method) ==> result.1 == nil || errIs(result.1, jsonrpc2.ErrInvalidRequest)
 //@   ensures @accepted-request-gets-its-own-method-info result.1 == nil ==> inDom(infos, req.Method) && result.0 == infos[req.Method]
 
+// notifySubscribedSessions (2026-07-28 subscribers): one delivery attempt per subscriber, each stamped with that
+// subscriber's own listen-request id, all issued outside any request (background context, see notifySessions).
+//@ func (*Server).notifySubscribedSessions [C18, C10]
+//@   track handleNotify as deliver
+//@   track context.Background as background
+//@   track context.WithTimeout as bound
+//@   track injectMetaSubscriptionID as stamp
+//@   track newRequest as mkreq
+//@   modifies *
+//@   assert at call context.WithTimeout: @fan-out-is-not-tied-to-a-request calls(background) == 1 && $0 == callResult(background, 1, 0)
+//@   assert at call injectMetaSubscriptionID: @stamped-with-the-listen-id-of-this-subscriber $1 == local(reqID) && $0 == lastResult(makeParamsCall, 0)
+//@   assert at call newRequest: @addressed-to-the-subscriber $0 == local(sess) && $1 == lastResult(makeParamsCall, 0)
+//@   assert at call handleNotify: @every-delivery-uses-the-fan-out-context calls(bound) == 1 && $0 == callResult(bound, 1, 0) && $1 == method && $2 == lastResult(mkreq, 0)
+//@   track makeParams as makeParamsCall
 // notifySessions (generic fan-out helper, C18): one delivery attempt per session, whatever the outcome of the
 // earlier ones - a failing or closing session does not starve the sessions after it.
-//@ func notifySessions [C18]
+//@ func notifySessions [C18, C10]
 //@   track handleNotify as deliver
+//@   track context.Background as background
+//@   track context.WithTimeout as bound
 //@   modifies *
+// Fan-out notifications are issued outside any request: their context descends from the background context (it
+// carries no request id, so on the streamable server they travel on the standalone stream of each session, never
+// on the exchange of whatever request happens to have the same id in that session).
+//@   assert at call context.WithTimeout: @fan-out-is-not-tied-to-a-request calls(background) == 1 && $0 == callResult(background, 1, 0)
+//@   assert at call handleNotify: @every-delivery-uses-the-fan-out-context calls(bound) == 1 && $0 == callResult(bound, 1, 0) && $1 == method
 //@   ensures @every-session-gets-its-attempt len(sessions) > 0 ==> calls(deliver) == len(sessions)
 //@   loop 1: invariant @one-attempt-per-session-so-far calls(deliver) == $idx
